@@ -87,7 +87,11 @@ CATALOGS = {
 TS = [{'name': 'tp', 'integration_name': 'mindsdb', 'timeseries': True, 'window': 2, 'order_by_column': 'ts',
        'group_by_columns': ['g']},
       {'name': 'tp0', 'integration_name': 'mindsdb', 'timeseries': True, 'window': 2, 'order_by_column': 'ts',
-       'group_by_columns': []}]
+       'group_by_columns': []},
+      {'name': 'tpn', 'integration_name': 'mindsdb', 'timeseries': True, 'window': 2, 'order_by_column': 'ts',
+       'group_by_columns': None},
+      {'name': 'tpx', 'integration_name': 'mindsdb', 'timeseries': True, 'window': 1, 'order_by_column': 'ts',
+       'group_by_columns': ['g', 'h']}]
 
 
 def catalog(name, with_ts=False):
@@ -162,6 +166,12 @@ def generated():
         'select * from int1.t1 as t1 join mindsdb.tp as m where t1.ts > 5 limit 3',
         'select * from int1.t1 as t1 join mindsdb.tp0 as m where t1.ts between 1 and 3',
         'select * from int1.t1 as t1 join mindsdb.tp as m join int2.t2 as t2 on t2.a = t1.a',
+        'select * from int1.t1 as t1 join mindsdb.tpn as m where t1.ts > latest',
+        'select * from int1.t1 as t1 join mindsdb.tpn as m where t1.ts > 3 and t1.ts < 9',
+        'select * from int1.t1 as t1 join mindsdb.tpx as m where t1.ts >= 3',
+        'select * from int1.t1 as t1 join mindsdb.tpx as m',
+        'select * from mindsdb.tpn as m join int1.t1 as t1 where t1.ts = 4',
+        'select m.* from int1.t1 as t1 join mindsdb.tp as m where t1.ts > latest and t1.g = 1 limit 5',
         'select * from nosuch.t1 join int9.t2 on t1.a = t2.a',
         'select * from files.f1 join int1.t1 on f1.a = t1.a',
         'select * from int1.t1, int2.t2 where t1.a = t2.a',
